@@ -2040,12 +2040,15 @@ impl<const N: usize, T> Default for CircularBuffer<N, T> {
 }
 
 impl<const N: usize, const M: usize, T> From<[T; M]> for CircularBuffer<N, T> {
-    fn from(mut arr: [T; M]) -> Self {
+    fn from(arr: [T; M]) -> Self {
+        // `arr` is taken apart below: the last `size` elements are moved into the buffer and the
+        // others are dropped in place, so its own destructor must never run
+        let mut arr = mem::ManuallyDrop::new(arr);
         #[cfg(feature = "unstable")]
         let mut elems = [const { MaybeUninit::uninit() }; N];
         #[cfg(not(feature = "unstable"))]
         let mut elems = unsafe { MaybeUninit::<[MaybeUninit<T>; N]>::uninit().assume_init() };
-        let arr_ptr = &arr as *const T as *const MaybeUninit<T>;
+        let arr_ptr = arr.as_ptr() as *const MaybeUninit<T>;
         let elems_ptr = &mut elems as *mut MaybeUninit<T>;
         let size = if N >= M { M } else { N };
 
@@ -2058,21 +2061,23 @@ impl<const N: usize, const M: usize, T> From<[T; M]> for CircularBuffer<N, T> {
             ptr::copy_nonoverlapping(arr_ptr.add(M - size), elems_ptr, size);
         }
 
-        // Prevent destructors from running on those elements that we've taken ownership of; only
-        // destroy the elements that were discareded
-        //
-        // SAFETY: All elements in `arr` are initialized; `forget` will make sure that destructors
-        // are not run twice
-        unsafe {
-            ptr::drop_in_place(&mut arr[..M - size]);
-        }
-        mem::forget(arr);
-
-        Self {
+        // The buffer owns the elements that were moved from this point on, so that they are
+        // dropped (once) if the destructor of a discarded element panics below
+        let buf = Self {
             size,
             start: 0,
             items: elems,
+        };
+
+        // Only destroy the elements that were discarded
+        //
+        // SAFETY: All elements in `arr` are initialized; `ManuallyDrop` makes sure that
+        // destructors are not run twice
+        unsafe {
+            ptr::drop_in_place(&mut arr[..M - size]);
         }
+
+        buf
     }
 }
 
